@@ -91,6 +91,40 @@ func pingServer(ctx context.Context, st *stream.Stream) error {
 	return m.FinishMessage(ctx)
 }
 
+// mkStream builds the stream over c. With swap, the stream is first created on a
+// throw-away connection and c is installed with SetConnection (connection
+// upgrade / wrapping): cancellation must then interrupt and close c, the
+// connection actually in use, not the one the stream was constructed with.
+func mkStream(c net.Conn, swap bool) *stream.Stream {
+	if !swap {
+		return stream.NewStream(c)
+	}
+	old, _ := newPair()
+	st := stream.NewStream(old)
+	st.SetConnection(c)
+	return st
+}
+
+func hsClientSw(ctx context.Context, e *env, c net.Conn) error {
+	st := mkStream(c, true)
+	cfg := e.cli
+	a := security.NewAuthenticator(&cfg, st)
+	if _, err := a.ClientHandshake(ctx); err != nil {
+		return err
+	}
+	return pingClient(ctx, st)
+}
+
+func hsServerSw(ctx context.Context, e *env, c net.Conn) error {
+	st := mkStream(c, true)
+	cfg := e.srv
+	a := security.NewAuthenticator(&cfg, st)
+	if _, err := a.ServerHandshake(ctx); err != nil {
+		return err
+	}
+	return pingServer(ctx, st)
+}
+
 func hsClient(ctx context.Context, e *env, c net.Conn) error {
 	st := stream.NewStream(c)
 	cfg := e.cli
@@ -188,9 +222,9 @@ func mkPlain() (*env, error) { return &env{}, nil }
 
 var plainKey = bytes.Repeat([]byte{0x5a}, 32)
 
-func frames1(enc bool) func(ctx context.Context, e *env, c net.Conn) error {
+func frames1(enc bool, swap ...bool) func(ctx context.Context, e *env, c net.Conn) error {
 	return func(ctx context.Context, e *env, c net.Conn) error {
-		st := stream.NewStream(c)
+		st := mkStream(c, len(swap) > 0 && swap[0])
 		if enc {
 			if err := st.SetSymmetricKey(plainKey); err != nil {
 				return err
@@ -227,9 +261,9 @@ func frames1(enc bool) func(ctx context.Context, e *env, c net.Conn) error {
 	}
 }
 
-func frames2(enc bool) func(ctx context.Context, e *env, c net.Conn) error {
+func frames2(enc bool, swap ...bool) func(ctx context.Context, e *env, c net.Conn) error {
 	return func(ctx context.Context, e *env, c net.Conn) error {
-		st := stream.NewStream(c)
+		st := mkStream(c, len(swap) > 0 && swap[0])
 		if enc {
 			if err := st.SetSymmetricKey(plainKey); err != nil {
 				return err
@@ -431,6 +465,8 @@ func allShapes() []shape {
 	return []shape{
 		{name: "frames", plain: true, mk: mkPlain, f1: frames1(false), f2: frames2(false)},
 		{name: "frames-aes", plain: true, mk: mkPlain, f1: frames1(true), f2: frames2(true)},
+		{name: "frames-aes-swapped-conn", plain: true, mk: mkPlain, f1: frames1(true, true), f2: frames2(true, true)},
+		{name: "hs-claimtobe-swapped-conn", mk: mkSimple([]security.AuthMethod{security.AuthClaimToBe}, security.SecurityRequired, security.SecurityRequired), f1: hsClientSw, f2: hsServerSw},
 		{name: "message", plain: true, mk: mkPlain, f1: msg1, f2: msg2},
 		{name: "secret-file", plain: true, mk: mkFile, f1: file1, f2: file2},
 		handshakeShape("hs-noauth-clear", mkSimple(none, security.SecurityNever, security.SecurityNever)),
